@@ -9,6 +9,7 @@ import (
 	"encoding/hex"
 	"encoding/json"
 	"fmt"
+	"math"
 	"os"
 	"reflect"
 	"sort"
@@ -336,6 +337,34 @@ type genOpts struct {
 
 func interestingU64(r *prng.Rng) uint64 { return r.U64Interesting() }
 
+// extremeScalars: the values of a numeric kind with the longest and the shortest encodings
+func extremeScalars(fd protoreflect.FieldDescriptor) []protoreflect.Value {
+	switch fd.Kind() {
+	case protoreflect.BoolKind:
+		return []protoreflect.Value{protoreflect.ValueOfBool(true), protoreflect.ValueOfBool(false)}
+	case protoreflect.EnumKind:
+		vs := fd.Enum().Values()
+		out := []protoreflect.Value{protoreflect.ValueOfEnum(-1), protoreflect.ValueOfEnum(math.MinInt32), protoreflect.ValueOfEnum(math.MaxInt32)}
+		for i := 0; i < vs.Len(); i++ {
+			out = append(out, protoreflect.ValueOfEnum(vs.Get(i).Number()))
+		}
+		return out
+	case protoreflect.Int32Kind, protoreflect.Sint32Kind, protoreflect.Sfixed32Kind:
+		return []protoreflect.Value{protoreflect.ValueOfInt32(-1), protoreflect.ValueOfInt32(math.MinInt32), protoreflect.ValueOfInt32(math.MaxInt32), protoreflect.ValueOfInt32(0), protoreflect.ValueOfInt32(-64), protoreflect.ValueOfInt32(1 << 28)}
+	case protoreflect.Int64Kind, protoreflect.Sint64Kind, protoreflect.Sfixed64Kind:
+		return []protoreflect.Value{protoreflect.ValueOfInt64(-1), protoreflect.ValueOfInt64(math.MinInt64), protoreflect.ValueOfInt64(math.MaxInt64), protoreflect.ValueOfInt64(0), protoreflect.ValueOfInt64(1 << 56), protoreflect.ValueOfInt64(-(1 << 62))}
+	case protoreflect.Uint32Kind, protoreflect.Fixed32Kind:
+		return []protoreflect.Value{protoreflect.ValueOfUint32(math.MaxUint32), protoreflect.ValueOfUint32(0), protoreflect.ValueOfUint32(1 << 28), protoreflect.ValueOfUint32(1<<31 + 1)}
+	case protoreflect.Uint64Kind, protoreflect.Fixed64Kind:
+		return []protoreflect.Value{protoreflect.ValueOfUint64(math.MaxUint64), protoreflect.ValueOfUint64(0), protoreflect.ValueOfUint64(1 << 63), protoreflect.ValueOfUint64(1 << 56)}
+	case protoreflect.FloatKind:
+		return []protoreflect.Value{protoreflect.ValueOfFloat32(float32(math.Inf(-1))), protoreflect.ValueOfFloat32(0), protoreflect.ValueOfFloat32(-1.5)}
+	case protoreflect.DoubleKind:
+		return []protoreflect.Value{protoreflect.ValueOfFloat64(math.Inf(-1)), protoreflect.ValueOfFloat64(0), protoreflect.ValueOfFloat64(-1.5)}
+	}
+	return []protoreflect.Value{fd.Default()}
+}
+
 func randScalar(r *prng.Rng, fd protoreflect.FieldDescriptor) protoreflect.Value {
 	u := interestingU64(r)
 	if r.Chance(1, 6) {
@@ -455,6 +484,21 @@ func randMessage(r *prng.Rng, md protoreflect.MessageDescriptor, o genOpts) *dyn
 				if r.Chance(1, 12) && bigOK() {
 					n = 2100 // payload beyond the two-byte length limit (the list-based model is slow on these: rationed)
 				}
+			}
+			if fd.Kind() != protoreflect.MessageKind && fd.Kind() != protoreflect.StringKind && fd.Kind() != protoreflect.BytesKind && r.Chance(1, 5) {
+				// a list of ONE extreme value repeated (all elements at their widest / narrowest encoding), at every length
+				// from 1 to 40 and around 127/128 payload bytes: length prefixes computed from an element COUNT or from an
+				// assumed per-element width are wrong exactly here (e.g. 13 x int32(-1) = 130 payload bytes)
+				ext := extremeScalars(fd)
+				v := ext[r.Intn(len(ext))]
+				n = 1 + r.Intn(40)
+				if r.Chance(1, 4) {
+					n = []int{12, 13, 14, 15, 16, 18, 19, 25, 26, 31, 32, 42, 43, 63, 64, 65, 127, 128, 129}[r.Intn(19)]
+				}
+				for ; n > 0; n-- {
+					l.Append(v)
+				}
+				break
 			}
 			for ; n > 0; n-- {
 				if fd.Kind() == protoreflect.MessageKind {
